@@ -300,6 +300,26 @@ Qed.
 Lemma lex_print rs : forallb good_rec rs = true -> lex (print rs) = layout rs [[]].
 Proof. intros H. rewrite <- (app_nil_r (print rs)). rewrite lex_print_app; auto. Qed.
 
+(* ------------------------------------------------------------------ raw readers = readers on the data view *)
+Definition cut (s : stream) : stream := map cut_comment s.
+Lemma lex_cut cs : lex cs = cut (raw_lex cs).
+Proof. unfold lex, cut, raw_lex. rewrite map_map. reflexivity. Qed.
+
+Lemma rword_raw_cut s :
+  fst (rword (cut s)) = fst (rword_raw s) /\ snd (rword (cut s)) = cut (snd (rword_raw s)).
+Proof.
+  induction s as [|l s IH]; simpl; auto.
+  destruct l as [|w l]; simpl; auto.
+  destruct (is_comment w); simpl; auto.
+Qed.
+Lemma rline_raw_cut s :
+  fst (rline (cut s)) = fst (rline_raw s) /\ snd (rline (cut s)) = cut (snd (rline_raw s)).
+Proof.
+  induction s as [|l s IH]; simpl; auto.
+  destruct l as [|w l]; simpl; auto.
+  destruct (is_comment w) eqn:E; simpl; try rewrite E; auto.
+Qed.
+
 (* ------------------------------------------------------------------ reader calculus *)
 Fixpoint sk (s : stream) : stream := match s with [] :: ls => sk ls | _ => s end.
 
